@@ -40,8 +40,12 @@ def build(tier, seed):
            ("p1", dict(kls=[2], lcps=[0], vls=[1])),
            ("p2", dict(kls=[2, 1], lcps=[0, 0], vls=[1, 1])),
            ("p3", dict(kls=[1, 2, 3], lcps=[0, 1, 2], vls=[0, 0, 0]))]
-    for tag, t in (pre[:3] if quick else pre):
-        for akl in ((1, 2) if quick else (0, 1, 2, 3)):
+    pe = ("pe", dict(kls=[0], lcps=[0], vls=[1]))       # the EMPTY key is the last accepted key
+    steps = [(tag, t, akl) for tag, t in (pre[:3] if quick else pre) for akl in ((1, 2) if quick else (0, 1, 2, 3))]
+    steps += [(pre[0][0], pre[0][1], 0)] if quick else []
+    steps += [(pe[0], pe[1], akl) for akl in ((0, 1) if quick else (0, 1, 2))]
+    for tag, t, akl in steps:
+        if True:
             qs.append(wc.wq("step_%s_k%d" % (tag, akl), ri=2, bs=200, entry="h_gate_step", extra={"AKL": akl, "AVL": 1},
                             us=US, witness=(akl == 1), timeout=1500, mem_gb=14,
                             sample={"last_add": "key of %d symbolic bytes, any order relation to the last accepted key" % akl}, **t))
